@@ -92,6 +92,13 @@ func enumCases() []enumCase {
 			Tgt:     enumDef{"int", []enumMember{{"TgtRed", "4"}, {"TgtGreen", "5"}, {"TgtBlue", "6"}}},
 			Lines:   []string{`enum:transform regex Src(\w+) Tgt$1`, "enum:map SrcRed TgtBlue"},
 			Mapping: map[string]string{"SrcRed": "TgtBlue", "SrcGreen": "TgtGreen", "SrcBlue": "TgtBlue"}},
+		{Name: "transform_regex_repeated", Src: enumDef{"int", []enumMember{{"S_Not_Found", "0"}, {"S_Ok", "1"}, {"S_A_B_C", "2"}, {"Plain", "3"}}},
+			Tgt:     enumDef{"int", []enumMember{{"SNotFound", "4"}, {"SOk", "5"}, {"SABC", "6"}, {"Plain", "7"}, {"SNot_Found", "8"}}},
+			Lines:   []string{`enum:transform regex _([A-Z]) $1`},
+			Mapping: map[string]string{"S_Not_Found": "SNotFound", "S_Ok": "SOk", "S_A_B_C": "SABC", "Plain": "Plain"}},
+		{Name: "int64_lowbits", Src: rgb("int64", "1152921504606846977", "1152921504606846978", "1152921504606846979"), Tgt: rgb("int", "1", "2", "3"), Mapping: same},
+		{Name: "uint64_lowbits", Src: rgb("uint64", "18446744073709551613", "18446744073709551614", "18446744073709551615"), Tgt: rgb("string", `"a"`, `"b"`, `"c"`), Mapping: same},
+		{Name: "int64_lowbits_negative", Src: rgb("int64", "-9007199254740993", "-9007199254740992", "-9007199254740994"), Tgt: rgb("int8", "1", "2", "3"), Mapping: same},
 		// must fail
 		{Name: "fail_unmapped_member", Src: enumDef{"int", []enumMember{{"Red", "0"}, {"Green", "1"}, {"Teal", "2"}}}, Tgt: rgb("int", "7", "8", "9"),
 			Mapping: same, Fail: "source member Teal has no target"},
